@@ -1090,6 +1090,13 @@ func isStanzaEmptySpace(name xml.Name) bool {
 func (s *Session) sendResp(ctx context.Context, id string, payload xml.TokenReader, start xml.StartElement) (xmlstream.TokenReadCloser, error) {
 	c := make(chan xmlstream.TokenReadCloser)
 
+	// The context stored with the pending request is also canceled when this
+	// call returns for any other reason (eg. because transmitting the request
+	// failed) so that a response that was looked up just before we gave up does
+	// not leave the serve loop waiting for a receiver that no longer exists.
+	ctx, cancel := context.WithCancel(ctx)
+	defer cancel()
+
 	s.sentStanzaMutex.Lock()
 	s.sentStanzas[id] = tokenReadChan{
 		stanzaName: start.Name,
